@@ -244,6 +244,9 @@ func c05checkWellFormed(k *mon.Case, f *c05font, data []byte, tag string) {
 			return
 		}
 		eligible[gid] = !p.usedArith && !p.usedFrac && !p.usedFlex
+		if p.flex1Tie {
+			k.Class("flex1:tie")
+		}
 		anyEligible = anyEligible || eligible[gid]
 		// coverage
 		for name, cnt := range res.OpCount {
